@@ -132,7 +132,7 @@ func (m *monitor) onSubmit(id []byte, txs [][]byte, out string, before map[strin
 		m.pending = append(m.pending, pend{txs: txs, c: c, dup: dup})
 		m.rec[c] = true
 		delete(m.rejected, c)
-	case "skip-empty", "err:id", "err:full", "err:store", "err:other":
+	case "skip-empty", "err:id", "err:full", "err:store", "err:ctx", "err:other":
 		cls := strings.TrimPrefix(out, "err:")
 		if wrote {
 			m.c.Report("C10/reject/"+cls+"-wrote-to-datastore", "a submission answered "+out+" changed the datastore")
@@ -169,6 +169,25 @@ func (m *monitor) onNext(id []byte, txs [][]byte, out string, before map[string]
 			}
 			return
 		}
+	}
+	if txs == nil && strings.HasPrefix(out, "err:") && out != "err:id" && w.ds.NumWrites() != nBefore && !m.stale {
+		// the call answered with an error AFTER it had changed the durable queue: whatever it took out is with nobody
+		if got, ok := m.probe(w.ds.Image(), m.w.max); ok {
+			lost, _ := m.judge(got, m.pending, false, "", m.w.max)
+			for _, c := range hx.SortedKeys(lost) {
+				for n := lost[c]; n > 0; n-- {
+					m.c.Report("C10/durable/batch-lost-in-call-that-returned-an-error", "GetNextBatch answered "+out+" after it had popped a batch and deleted its write-ahead record: the batch is neither handed out nor in the queue, and a restart does not bring it back")
+					for i, p := range m.pending {
+						if p.c == c {
+							m.pending = append(m.pending[:i:i], m.pending[i+1:]...)
+							break
+						}
+					}
+					m.forgotten[c]++
+				}
+			}
+		}
+		return
 	}
 	if txs == nil {
 		if out == "empty" && len(m.pending) > 0 {
